@@ -431,6 +431,16 @@ def build_string(b: Builder):
 
 def build_other(b: Builder):
     idx = 0
+    # an inner type that can carry NaN (identity shortcuts in ==, reflexivity assumptions)
+    for variant in range(3):
+        idx += 1
+        d = b.new(OTHER_INNERS["fvec"])
+        if variant == 1:
+            add_with_sanitizer(d, "{ let mut x = x; x.truncate(2); x }", "mut")
+        if variant == 2:
+            add_predicate(d, "x.len() < 3", "closure")
+        d.tags = [t for t in d.tags if t not in ("C06",)]
+        finish_derives(d, ["Debug", "Clone", "PartialEq", "PartialOrd", "AsRef", "Deref", "Borrow", "Into", "IntoIterator"], idx)
     for key in ("vec", "point", "cow", "gvec", "gord"):
         inner = OTHER_INNERS[key]
         base = ["Debug", "Clone", "Copy", "PartialEq", "Eq", "PartialOrd", "Ord", "Hash", "AsRef", "Deref", "Borrow", "Into", "Display", "FromStr", "IntoIterator"]
